@@ -4,7 +4,8 @@ CHECK = dict(
          "window, loopback/non-loopback origins and the three local-only paths, with credentials as atom sequences so "
          "every re-splitting of id+secret is a separate request. TLC checks the rule (OnlyIssued, NoResplit) and exports "
          "every transition of the bounded model with the call path and the allowed outcome; each is replayed against the "
-         "real authn.API over a real CredentialStore on goleveldb (thorough: plus one real 301 s wait for the expiry edge).",
+         "real authn.API over a real CredentialStore on goleveldb (thorough: plus one real 301 s wait for the expiry edge)."
+         " The specification's clock counts half cache windows; an instance with two half-window waits (2 x 151 s of real time, both tiers) checks that using a deleted token's pair does not extend the window.",
     design_ref="DESIGN.md §6 C36",
     note="Loopback requests without a live token are left unconstrained; static /dashboard and /equity prefixes excluded. "
          "Known finding: cache key user+pw admits a re-split of an authenticated token.",
